@@ -591,6 +591,11 @@ pub fn build() -> Vec<DynType> {
     // upgrade families for wire-sim
     reg!(v; RecV1, RecV2, RecV3, RecV4, VarV1, VarV2, Option<VarV1>, Option<VarV2>, Vec<RecV1>, Vec<RecV2>, Option<RecV3>, FuncRefV2, ServRefV2, (RecV1, VarV1), (RecV2, Option<VarV2>),
          BTreeMap<String, RecV1>, BTreeMap<String, RecV2>, Vec<Option<VarV1>>, Vec<Option<VarV2>>, (Nat,), (Int,), (Int, Option<String>), (Nat, String, u8), Option<(Int,)>);
+    // pointer-sized wrappers around fixed-width numbers (the bulk little-endian vector path must not apply)
+    reg!(v; Vec<Box<u64>>, Vec<Box<i64>>, Vec<Box<f64>>, Vec<Box<u32>>, Vec<Box<u8>>, [Box<u64>; 2], VecDeque<Box<i64>>, Vec<std::cmp::Reverse<u64>>, Vec<std::cell::RefCell<u64>>, Vec<Box<bool>>,
+         Vec<(u64,)>, Vec<NewT>, Vec<ArcS>);
+    // large type tables, back-tracking shapes
+    reg!(v; Wide, Vec<Wide>, (Wide, Option<Wide>), BtA, BtB, BtC, BtD, Vec<BtA>, Vec<BtB>, SmallCfg, WideCfg, Option<SmallCfg>, Option<WideCfg>, Vec<Option<SmallCfg>>, Vec<Option<WideCfg>>);
     // names must be unique
     let mut seen = BTreeSet::new();
     v.retain(|d| seen.insert(d.name.clone()));
